@@ -42,6 +42,13 @@ func (u *Unit) doCall(st *State, fr *Frame, in *ssa.Call, k Kont) {
 	k(st, u.havocResult(st, in.Type(), "dyn"))
 }
 
+func (u *Unit) zeroResult(t types.Type) Val {
+	if tt, ok := t.(*types.Tuple); ok && tt.Len() == 0 {
+		return nil
+	}
+	return u.zeroVal(t)
+}
+
 func (u *Unit) havocResult(st *State, t types.Type, name string) Val {
 	if tt, ok := t.(*types.Tuple); ok {
 		if tt.Len() == 0 {
@@ -396,6 +403,10 @@ func (u *Unit) appendList(st *State, fr *Frame, s, x SliceV) Val {
 
 func (u *Unit) invoke(st *State, fr *Frame, in *ssa.Call, recv IfaceV, m *types.Func, args []Val, k Kont) {
 	u.safety(st, fr, in.Pos(), "nil interface method call", Not(recv.Nil))
+	if u.specMode > 0 && recv.Nil.IsBool && recv.Nil.B {
+		k(st, u.zeroResult(in.Type())) // specifications are total
+		return
+	}
 	if recv.Dyn != nil {
 		ms := u.P.Prog.MethodSets.MethodSet(recv.Dyn)
 		sel := ms.Lookup(m.Pkg(), m.Name())
@@ -448,8 +459,16 @@ func (u *Unit) useContract(st *State, fr *Frame, in *ssa.Call, fn *ssa.Function,
 	}
 	// every byte slice in the result is nil, points into memory that existed
 	// before the call, or into memory allocated by the callee
+	epoch := len(st.order)
+	u.walkIfaces(st, res, 0, func(iv IfaceV) {
+		if iv.Opq != nil {
+			u.ifBase[iv.Opq.S] = base
+			u.ifBound[iv.Opq.S] = st.wm
+		}
+	})
 	u.walkSlices(st, res, 0, func(s SliceV) {
 		u.assume(Lt(s.Blk, st.wm))
+		u.blkInfo[s.Blk.S] = blkMeta{base: base, epoch: epoch}
 	})
 	savedBase := u.ctxBase
 	u.ctxBase = base
@@ -510,3 +529,26 @@ func (u *Unit) walkSlices(st *State, v Val, depth int, f func(SliceV)) {
 }
 
 var _ = token.NoPos
+
+// walkIfaces visits the opaque interface values reachable from v.
+func (u *Unit) walkIfaces(st *State, v Val, depth int, f func(IfaceV)) {
+	if depth > 6 {
+		return
+	}
+	switch x := v.(type) {
+	case IfaceV:
+		f(x)
+	case StructV:
+		for _, e := range x.F {
+			u.walkIfaces(st, e, depth+1, f)
+		}
+	case TupleV:
+		for _, e := range x.E {
+			u.walkIfaces(st, e, depth+1, f)
+		}
+	case PtrV:
+		if x.Cell != nil && x.Blk == nil && !(x.Nil.IsBool && x.Nil.B) {
+			u.walkIfaces(st, u.loadPath(st, x), depth+1, f)
+		}
+	}
+}
